@@ -102,8 +102,8 @@ PROPERTIES = {
                       H("HarnessC07a", b(N=33, K=1, MODE=1, LRULER=1, CONCRETEKEYS=1, Lmax=5), sample_every=20, max_steps=20000000)],
             "thorough": [H("HarnessC07a", b(N=3, K=2, MODE=1), sample_every=500), H("HarnessC07a", b(N=4, K=1, MODE=1), sample_every=500), H("HarnessC07a", b(N=3, K=3, MODE=3), sample_every=500), H("HarnessC07a", b(N=3, K=3, MODE=7), sample_every=500), H("HarnessC07a", b(N=4, K=2, MODE=7), sample_every=500)],
         },
-        "must_reach": ["C15.difflinks-reads", "C15.diffiter-reads", "C15.same-version-no-reads"],
-        "bounds_statement": "same pairs as C07, cache-less store; distinct names passed to Persist.Load during DiffLinks and DiffIter against D = |reach(old) symmetric-difference reach(new)| (a solver-decided inequality per path)",
+        "must_reach": ["C15.difflinks-reads", "C15.diffiter-reads", "C15.cursor-reads", "C15.same-version-no-reads"],
+        "bounds_statement": "same pairs as C07, cache-less store; distinct names passed to Persist.Load during DiffLinks, DiffIter and StartDiff+NextEntry (counted from before StartDiff) against D = |reach(old) symmetric-difference reach(new)| (a solver-decided inequality per path)",
         "assumptions": COMMON_ASSUMPTIONS,
     },
     "C08": {
@@ -212,11 +212,11 @@ PROPERTIES = {
     },
     "C17": {
         "runs": {
-            "quick": [H("HarnessC17a", {"LMAX": 3}, **FILEPKG)],
-            "thorough": [H("HarnessC17a", {"LMAX": 6}, **FILEPKG)],
+            "quick": [H("HarnessC17a", {"LMAX": 3}, **FILEPKG), H("HarnessC17a", {"LMAX": 3, "R": 2}, **{**FILEPKG, "sample_every": 3})],
+            "thorough": [H("HarnessC17a", {"LMAX": 24}, **FILEPKG), H("HarnessC17a", {"LMAX": 8, "R": 2}, **{**FILEPKG, "sample_every": 10}), H("HarnessC17a", {"LMAX": 4, "R": 3}, **{**FILEPKG, "sample_every": 40})],
         },
         "must_reach": ["C17.load-after-cut-is-notfound-or-complete", "C17.success-is-complete", "C17.restore-repairs"],
-        "bounds_statement": "real persist/file Store and Load over a symbolic file-system model: node of 0..LMAX symbolic bytes; the store is cut by a crash at every step (before create, after create, after each byte, before/after rename) or by a write error after every byte count; then restart, Load, Store again, Load",
+        "bounds_statement": "real persist/file Store and Load over a symbolic file-system model: node of 0..LMAX symbolic bytes; the store is cut by a crash at every step (before create, after create, after each byte, before/after rename) or by a write error after every byte count; then restart and Load; R such cut attempts in a row (R <= 3), each with its own symbolic cut point; then a healthy Store and Load. Natively a crash is a child process killed by the kernel at RLIMIT_FSIZE (SIGXFSZ at default disposition)",
         "outside": ["power-loss semantics (unsynced data lost after rename): the model's crash is a process crash", "payloads longer than LMAX (the store's own I/O does not depend on content)"],
         "assumptions": COMMON_ASSUMPTIONS + ["file-system model: os.Stat/ReadFile/WriteFile/CreateTemp/Rename/Remove and (*os.File).Write/Close/Sync/Name; WriteFile is create+write+close and not atomic, Rename is atomic, CreateTemp yields a fresh name in the given directory; filepath.Join of symbolic components is plain concatenation (the node-name alphabet has no separators)",
                                                 "native replay: crashes and short writes are produced by the real kernel (RLIMIT_FSIZE; crash = child process killed at the limit); fault points the kernel cannot be asked for are skipped in translator validation"],
@@ -251,8 +251,11 @@ PROPERTIES = {
     "C11": {
         "runs": {
             "quick": [H("HarnessC11a", b(N=5, OPS=1, MODE=m, KINDS=14, HREQ=2, LPAT=63), race=True, policy="rr", no_native=True) for m in (0, 1)] +
-                     [H("HarnessC11a", b(N=3, OPS=1, MODE=m, KINDS=15, HREQ=-1), race=True, policy="rr", no_native=True) for m in (0, 2)],
-            "thorough": [H("HarnessC11a", b(N=5, OPS=1, MODE=m, KINDS=14, HREQ=2, LPAT=p), race=True, policy=pol, no_native=True, sample_every=1000) for m in (0, 1) for p in (63, 57, 75) for pol in ("rr", "first", "last")] +
+                     [H("HarnessC11a", b(N=3, OPS=1, MODE=m, KINDS=15, HREQ=-1), race=True, policy="rr", no_native=True) for m in (0, 2)] +
+                     # a base that is not an ascending build: one more symbolic insert anywhere before persisting (splits in the
+                     # middle leave nodes with spare array capacity as left siblings), then both goroutines delete
+                     [H("HarnessC11a", b(N=4, OPS=1, MODE=0, KINDS=4, HREQ=1, LPAT=10, PRE=1), race=True, policy="rr", no_native=True, sample_every=50)],
+            "thorough": [H("HarnessC11a", b(N=5, OPS=1, MODE=m, KINDS=12, HREQ=1, LPAT=28, PRE=1), race=True, policy="rr", no_native=True, sample_every=1000) for m in (0, 1)] + [H("HarnessC11a", b(N=5, OPS=1, MODE=m, KINDS=14, HREQ=2, LPAT=p), race=True, policy=pol, no_native=True, sample_every=1000) for m in (0, 1) for p in (63, 57, 75) for pol in ("rr", "first", "last")] +
                         [H("HarnessC11a", b(N=3, OPS=1, MODE=m, KINDS=15, HREQ=-1), race=True, policy=pol, no_native=True, sample_every=1000) for m in (0, 1, 2) for pol in ("rr", "last")] +
                         [H("HarnessC11a", b(N=2, OPS=2, MODE=0, KINDS=10, HREQ=-1), race=True, policy="rr", no_native=True, sample_every=1000)] +
                         [H("HarnessC11a", b(N=3, OPS=1, MODE=0, KINDS=14, HREQ=-1, LPAT=9), race=True, sched=True, preempt=1, no_native=True, sample_every=5000)],
